@@ -382,6 +382,8 @@ impl ClusterHandler for GenCommHandler<'_> {
                 removed_fabric = state.failsafe.expire(
                     &mut state.fabrics,
                     &mut state.sessions,
+                    #[cfg(feature = "case-resumption")]
+                    &mut state.resumption,
                     pase_sess_id,
                     ctx.networks(),
                     ctx.kv(),
